@@ -14,6 +14,7 @@ import (
 	"time"
 
 	"github.com/pilosa/pilosa"
+	"github.com/pilosa/pilosa/roaring"
 	"github.com/pilosa/pilosa/test"
 
 	"verif/harness/behav"
@@ -55,11 +56,12 @@ func timesOf(quantum string) []string {
 func makeSProfile(seed int64, i int) *SProfile {
 	r := rand.New(rand.NewSource(seed*1000003 + int64(i)*104729 + 5))
 	sh := shardTriples[r.Intn(len(shardTriples))]
-	p := &SProfile{ColKeys: []string{"ca", "cb", "cc"}, RowKeys: []string{"", "ra", "rb"}}
+	p := &SProfile{ColKeys: []string{"ca", "cb", "cc", "cd"}, RowKeys: []string{"", "ra", "rb", "rc"}}
 	for k := 0; k < 3; k++ {
 		p.Cols = append(p.Cols, sh[k]*SW+colOffsets[r.Intn(len(colOffsets))])
 	}
-	p.RowIDs = [][]uint64{{0, 1, 2}, {0, 3, 70}, {0, 0, 5}, {0, 9, 10}}[r.Intn(4)]
+	p.Cols = append(p.Cols, sh[r.Intn(3)]*SW+555555) // column 3: first used after a restart
+	p.RowIDs = [][]uint64{{0, 1, 2, 4}, {0, 3, 70, 71}, {0, 0, 5, 1}, {0, 9, 10, 8}}[r.Intn(4)]
 	wides := [][]int64{
 		{-(int64(1)<<62 + 5), -(int64(1) << 40), 0, int64(1)<<33 + 1, int64(1)<<62 + 7},
 		{-(maxI64), -3, 0, 4, maxI64},
@@ -332,6 +334,15 @@ func (r *c08run) exec(i int, st behav.Step) {
 		err = r.api().DeleteField(ctx, r.ix, "g")
 	case "SetG":
 		q = fmt.Sprintf("Set(%s, g=1)", r.colArg(st.Int("c")))
+	case "AddRemote":
+		var f *pilosa.Field
+		if f, err = r.api().Field(ctx, r.ix, "f"); err == nil {
+			r.log = append(r.log, fmt.Sprintf("Field.AddRemoteAvailableShards(%d)", st.Int("s")))
+			err = f.AddRemoteAvailableShards(roaring.NewBitmap(uint64(st.Int("s"))))
+		}
+	case "DelRemote":
+		r.log = append(r.log, fmt.Sprintf("API.DeleteAvailableShard(%d)", st.Int("s")))
+		err = r.api().DeleteAvailableShard(ctx, r.ix, "f", uint64(st.Int("s")))
 	case "CreateJ":
 		if _, err = r.api().CreateIndex(ctx, r.jx, pilosa.IndexOptions{}); err == nil {
 			if _, err = r.api().CreateField(ctx, r.jx, "h", pilosa.OptFieldTypeSet(pilosa.CacheTypeLRU, 7)); err == nil {
@@ -558,7 +569,17 @@ func (r *c08run) specCheck(st map[string]interface{}) (string, string) {
 		rows := behav.ToList(st["rows"])
 		trows := behav.ToList(st["trows"])
 		rattr := behav.ToInts(st["rattr"])
-		for row := 1; row <= 2; row++ {
+		nrows := 3
+		if fc.Type == "bool" {
+			nrows = 2
+		}
+		for row := 1; row <= nrows; row++ {
+			if row == 3 && rattr[2] == 0 && len(behav.ToInts(rows[2])) == 0 &&
+				len(behav.ToInts(behav.ToList(trows[2])[0])) == 0 && len(behav.ToInts(behav.ToList(trows[2])[1])) == 0 {
+				// row 3 is first named after a restart: asking for it earlier would create
+				// its key (and hide a translation store that forgot its sequence)
+				continue
+			}
 			q := fmt.Sprintf("Row(f=%s)", r.rowArg(row))
 			if fc.Type == "time" {
 				ts := timesOf(fc.Quantum)
@@ -622,6 +643,21 @@ func (r *c08run) specCheck(st map[string]interface{}) (string, string) {
 			return fmt.Sprintf("auxiliary index Row(h=2) = %v, want [5]", out[0]), "aux"
 		}
 	}
+	// --- shards known to hold data elsewhere
+	if fld, err := r.api().Field(ctx, r.ix, "f"); err != nil {
+		return "API.Field: " + err.Error(), "schema"
+	} else {
+		av := fld.AvailableShards()
+		want := map[uint64]bool{}
+		for _, x := range behav.ToInts(st["remote"]) {
+			want[uint64(x)] = true
+		}
+		for _, x := range []uint64{8, 9} {
+			if av.Contains(x) != want[x] {
+				return fmt.Sprintf("Field.AvailableShards() = %v, remote shard %d present=%v, want %v", av.Slice(), x, av.Contains(x), want[x]), "shards"
+			}
+		}
+	}
 	// --- column attributes (through the store for id columns, through the query for keys)
 	cattr := behav.ToMap(st["cattr"])
 	idx, err := r.api().Index(ctx, r.ix)
@@ -629,7 +665,7 @@ func (r *c08run) specCheck(st map[string]interface{}) (string, string) {
 		return "API.Index: " + err.Error(), "schema"
 	}
 	if !ic.Keys {
-		for c := 0; c < 3; c++ {
+		for c := 0; c < len(r.p.Cols); c++ {
 			wa := behav.ToInt(cattr[fmt.Sprint(c)])
 			m, err := idx.ColumnAttrStore().Attrs(r.p.Cols[c])
 			if err != nil {
@@ -674,7 +710,7 @@ func (r *c08run) project() map[string]string {
 		if f.Name() == "f" {
 			out["field:f.rowattrs"] = dumpAttrs(f.RowAttrStore())
 			if r.fc.Type == "int" && !r.ic.Keys {
-				for c := 0; c < 3; c++ {
+				for c := 0; c < len(r.p.Cols); c++ {
 					// Field.Value opens (creates) the fragment of the column's shard: only
 					// columns of shards that hold data are read, so that reading does not
 					// change the set of available shards
@@ -751,7 +787,7 @@ func (r *c08run) project() map[string]string {
 				qs = append(qs, "TopN(f)", "TopN(f, n=1)", "TopN(f, Row(f="+rows[0]+"), n=2)")
 			}
 		}
-		for c := 0; c < 3; c++ {
+		for c := 0; c < 3; c++ { // (column 3 may not have a key yet: naming it would create one)
 			qs = append(qs, fmt.Sprintf("Rows(f, column=%s)", r.colArg(c)))
 		}
 	}
